@@ -911,7 +911,13 @@ func (ex *Exec) execFrom(st *State, b *ssa.BasicBlock, idx int, pred *ssa.BasicB
 						c.st.top().vals[y] = c.val
 						if y.Common().IsInvoke() {
 							// results of interface method calls are nameable too: call_<Method>
-							c.st.top().names["call_"+y.Common().Method.Name()] = namedVal{v: c.val}
+							mname := y.Common().Method.Name()
+							c.st.top().names["call_"+mname] = namedVal{v: c.val}
+							if c.val.K == VTuple {
+								for i, e := range c.val.Fs {
+									c.st.top().names[fmt.Sprintf("call_%s_%d", mname, i)] = namedVal{v: e}
+								}
+							}
 						}
 						if f := y.Common().StaticCallee(); f != nil {
 							fname := f.Name()
